@@ -101,6 +101,42 @@ def decrypt_attr(ref, master, enc):
     return ref.try_out("CIPHER", alg="AES-256/CBC/PKCS7", dir="dec", key=master, iv=enc[:16], **{"in": enc[16:]})
 
 
+def parse_db_attrmap(blob):
+    """the SQLite store's serialisation of a nested template (table attribute_array), host byte order:
+    type(8) kind(4: 1 bool, 2 ulong, 3 bytes, 5 mech set) value (bool 1 byte | ulong 8 | len(8) + bytes | len(8) + 8 each)  ->  {type: value}"""
+    m, off = {}, 0
+    while off < len(blob):
+        if off + 12 > len(blob):
+            raise FormatError("truncated map entry header")
+        t, k = struct.unpack("<QI", blob[off:off + 12])
+        off += 12
+        if k == 1:
+            if off + 1 > len(blob):
+                raise FormatError("truncated bool")
+            v = blob[off] != 0
+            off += 1
+        elif k == 2:
+            if off + 8 > len(blob):
+                raise FormatError("truncated ulong")
+            v = struct.unpack("<Q", blob[off:off + 8])[0]
+            off += 8
+        elif k in (3, 5):
+            if off + 8 > len(blob):
+                raise FormatError("truncated length")
+            n = struct.unpack("<Q", blob[off:off + 8])[0]
+            off += 8
+            if off + n > len(blob):
+                raise FormatError("truncated value")
+            v = bytes(blob[off:off + n])
+            off += n
+            if (k == 5 or t == 0x40000600) and len(v) % 8 == 0:
+                v = tuple(sorted(struct.unpack("<%dQ" % (len(v) // 8), v)))
+        else:
+            raise FormatError("unknown kind %d in attribute map" % k)
+        m[t] = v
+    return m
+
+
 def read_token_db(tokdir):
     """the SQLite store (sqlite3.db): same shape as read_token_dir; object names are 'object-<id>', the token object is id 1.
     Independent of the library: read with Python's sqlite3 module from a private copy of the database file."""
@@ -116,7 +152,7 @@ def read_token_db(tokdir):
             ids = [r[0] for r in con.execute("select id from object order by id")]
             objs = {i: {} for i in ids}
             for table, kind, conv in (("attribute_boolean", 1, lambda v: bool(v)), ("attribute_integer", 2, lambda v: int(v) & 0xFFFFFFFFFFFFFFFF), ("attribute_binary", 3, lambda v: bytes(v) if v is not None else b""),
-                                      ("attribute_array", 5, lambda v: bytes(v) if v is not None else b"")):
+                                      ("attribute_array", 4, lambda v: parse_db_attrmap(bytes(v) if v is not None else b""))):
                 for oid, t, v in con.execute("select object_id, type, value from %s" % table):
                     if oid in objs:
                         objs[oid][int(t)] = (kind, conv(v))
